@@ -675,3 +675,176 @@ def check_C04(ctx):
     em = ctx.validate("Trace_FixedTx", run, shards=16, corrupt=corrupt)
     if em is not None and not ctx.selftest:
         ctx.extra["digests_evaluated_with_hashlib"] = _take_hashchk(ctx, em)
+
+
+# ------------------------------------------------------------------------------- C01 C02 C03 (wire format family)
+
+def _drive_parse(ctx, scn_path, n_text, short):
+    """Run the parse driver; when a decoder kills the process (abort), record that outcome for the pending input and restart
+    the driver right after it. Returns a run dict with the merged trace."""
+    trace = os.path.join(ctx.work, "trace_parse.ndjson")
+    dump = os.path.join(ctx.work, "dump_parse.ndjson")
+    pending = os.path.join(ctx.work, "pending.json")
+    resume = "0:0"
+    aborts = 0
+    open(trace, "w").close()
+    import subprocess
+    while True:
+        part = trace + ".part"
+        args = [vlib.BIN, "parse", "--seed", str(ctx.seed), "--n", str(n_text), "--dump", dump, "--scn", scn_path, "--pending", pending, "--resume", resume]
+        if short:
+            args.append("--short")
+        with open(part, "wb") as fo:
+            p = subprocess.run(args, stdout=fo, stderr=subprocess.PIPE, env=dict(os.environ, RUST_BACKTRACE="0"))
+        recs = []
+        for line in open(part, errors="replace"):
+            try:
+                recs.append(json.loads(line))
+            except Exception:
+                pass                      # a line cut by the abort
+        if p.returncode == 0:
+            with open(trace, "a") as f:
+                for r in recs:
+                    f.write(json.dumps(r, separators=(",", ":")) + "\n")
+            break
+        if p.returncode in (-6, 134, -9, 137, -11, 139) and os.path.exists(pending):
+            pend = json.load(open(pending))
+            aborts += 1
+            if aborts > 400:
+                raise ToolError("parse driver: more than 400 process deaths")
+            with open(trace, "a") as f:
+                for r in recs:
+                    if r.get("ev") != "ParseBatch":
+                        f.write(json.dumps(r, separators=(",", ":")) + "\n")
+                f.write(json.dumps({"ev": "Codec", "sc": pend["sc"], "type": pend["type"], "in": pend["in"], "mut": pend["mut"],
+                                    "r": {"abort": "process killed (rc %d): %s" % (p.returncode, p.stderr.decode(errors="replace")[:80].replace('"', ""))}}, separators=(",", ":")) + "\n")
+            resume = "%d:%d" % (pend["sc"], pend["idx"])
+            continue
+        raise ToolError("parse driver failed rc=%s: %s" % (p.returncode, p.stderr.decode(errors="replace")[-400:]))
+    ctx.extra["process_deaths_observed"] = aborts
+    return {"driver": "parse", "flags": ["--short"] if short else [], "trace": trace, "dump": dump}
+
+
+def _corrupt_codec(recs, rnd):
+    n = 0
+    for r in recs:
+        if r.get("ev") == "Codec" and isinstance(r.get("r"), dict) and r["r"].get("ok") and isinstance(r["r"].get("rt"), dict) and r["r"]["rt"].get("ok"):
+            tb = r["r"]["rt"]["to_bytes"]
+            if tb.get("ok") and tb["b"]:
+                tb["b"][-1] ^= 1
+                n += 1
+    return n > 0
+
+
+def _codec_instances(ctx):
+    cfg = "MC_Codec_thorough.cfg" if ctx.thorough else "MC_Codec.cfg"
+    r = ctx.mc("MC_Codec", cfg=cfg, workers=8, timeout=1800)
+    return r.by("SCN")
+
+
+def _built_transactions(ctx, n_regular, n_plutus):
+    """real transactions produced by the builder, handed to the codec as further instances"""
+    out = []
+    for flags, n, name in (((), n_regular, "b1"), (("--plutus",), n_plutus, "b2")):
+        run = ctx.drive("builder", n=n, flags=list(flags), name="codecsrc_" + name)
+        for r in vlib.read_ndjson(run["trace"]):
+            if r.get("ev") == "Built":
+                out.append({"type": "transaction", "bytes": r["tx"]})
+                if isinstance(r.get("signed"), dict) and r["signed"].get("ok"):
+                    out.append({"type": "transaction", "bytes": r["signed"]["bytes"]})
+    return out
+
+
+@prop("C01", "scenario = one typed value obtained by decoding a schema instance: every each-choice instance (one variant / optional field / "
+             "integer width class / collection size class differing from the default, schema depth 3 quick / 5 thorough) of 20 typed schemas "
+             "generated by TLC from ConwaySchema (and checked on the model to conform to the schema), plus the transactions the real builder "
+             "produced; decoded, re-encoded, decoded again, through bytes and hex; distinct = (type, top-level shape, length)")
+def check_C01(ctx):
+    ctx.assumptions += ["values are obtained by decoding spec-generated instances and builder output (DESIGN route (a)) and, for Plutus data, metadata, native scripts, values, "
+                        "outputs and a few more types, by construct-first scripts through the typed API (route (b), harness codec --construct); route (b) does not cover every type",
+                        "a generated instance the decoder refuses is noted (generated-instance-not-accepted), not failed: the statement is about values the API can build",
+                        "equality is the library's PartialEq plus byte identity of the re-encoding, both checked by the validator"]
+    if ctx.replay:
+        ctx.run_replay()
+        return
+    scn = _codec_instances(ctx) + _built_transactions(ctx, 2000 if ctx.thorough else 250, 1500 if ctx.thorough else 200)
+    p = ctx.write_scn(scn)
+    run = ctx.drive("codec", scn=p, n=0, flags=["--construct"])
+    ctx.validate("Trace_Codec", run, shards=16, corrupt=_corrupt_codec)
+
+
+@prop("C02", "scenario = one parser call on malformed input: (a) every single structural mutation (truncation at item boundaries and inside "
+             "heads, each bit of each head byte, every additional-info value, declared lengths 0..2^64-1, every other major type, specials / "
+             "breaks / tags inserted or wrapped, duplicated / dropped items, definite->indefinite) at every node of ~500 (quick) schema "
+             "instances, node spans from the TLA+ parser; (b) ALL inputs of length <= 2 for 30 byte decoders and a grid for 17 byte entry "
+             "points; (c) ~45 malformed variants of a valid form for 42 text entry points (hex, Bech32, Base58, decimal, JSON, schema JSON); "
+             "Err outcomes are counted, every Ok (re-serialization must be well-formed CBOR) and Panic / Abort is judged; distinct = "
+             "(kind, type/entry, outcome classes)")
+def check_C02(ctx):
+    ctx.assumptions += ["nesting depth of generated input is below 256 (stack exhaustion on deeper input is not decided)",
+                        "a process death (abort on allocation) is observed by the orchestrator through a pending-input side file and recorded as outcome 'abort'",
+                        "mutation operators are applied by the harness at node spans computed by CBOR.tla (MC_Mutate); they are not TLA+ actions"]
+    if ctx.replay:
+        ctx.run_replay()
+        return
+    cfg = "MC_Mutate_thorough.cfg" if ctx.thorough else "MC_Mutate.cfg"
+    r = ctx.mc("MC_Mutate", cfg=cfg, workers=8, timeout=1800)
+    p = ctx.write_scn(r.by("SCN"))
+    run = _drive_parse(ctx, p, n_text=12 if ctx.thorough else 3, short=True)
+
+    def corrupt(recs, rnd):
+        n = 0
+        for r in recs:
+            if r.get("ev") == "Codec" and isinstance(r.get("r"), dict) and r["r"].get("ok") and r["r"].get("to_bytes"):
+                r["r"]["to_bytes"] = r["r"]["to_bytes"][:-1] + [0x9f]        # dangling indefinite array: not well-formed
+                n += 1
+                if n > 50:
+                    break
+        return n > 0
+    em = ctx.validate("Trace_Codec", run, shards=16, corrupt=corrupt)
+    if em is not None and not ctx.selftest:
+        tf = [e for e in em if e.get("t") == "TOOLFAIL"]
+        if tf:
+            raise ToolError("harness problem (not a verdict): %s" % json.dumps(tf[0])[:300])
+        tot = {}
+        for e in em:
+            if e.get("t") == "BATCH":
+                for k in ("tried", "err", "ok", "panic"):
+                    tot[e["kind"] + "_" + k] = tot.get(e["kind"] + "_" + k, 0) + e[k]
+        ctx.extra["parser_calls"] = tot
+        ctx.events += sum(v for k, v in tot.items() if k.endswith("_tried"))
+
+
+@prop("C03", "scenario = one emitted byte string: every transaction built (and signed) by the builder / Plutus / send-all drivers, and the "
+             "serialization of every typed value decoded from an each-choice schema instance; validated by TLC against ConwaySchema in the "
+             "write profile (map keys, arities, tags, ranges, sizes, shortest definite heads except Plutus lists / bounded bytes, tag 258 and "
+             "distinct elements on sets, canonical asset-map order, positive quantities); distinct = (type, source, shape)")
+def check_C03(ctx):
+    ctx.assumptions += ["the Conway CDDL is transcribed from memory (DESIGN 5.2); constraints marked UNSURE in ConwaySchema.tla are permissive: governance action bodies, "
+                        "protocol parameter update (body key 6)",
+                        "decoded values that keep a non-canonical original encoding are excluded: the instances are generated in the canonical write form",
+                        "set_donation(0) (positive_coin) is reachable only through a raw setter and is not exercised"]
+    if ctx.replay:
+        ctx.run_replay()
+        return
+    runs = [ctx.drive("builder", n=3000 if ctx.thorough else 500, name="emit_builder"),
+            ctx.drive("builder", n=2500 if ctx.thorough else 400, flags=["--plutus"], name="emit_plutus"),
+            ctx.drive("sendall", n=1500 if ctx.thorough else 200, name="emit_sendall")]
+
+    def corrupt(recs, rnd):
+        n = 0
+        for r in recs:
+            if r.get("ev") == "Built":
+                tx = r["tx"]
+                for i in range(len(tx) - 3):
+                    if tx[i] == 0xd9 and tx[i + 1] == 1 and tx[i + 2] == 2:       # first set tag 258 -> 259
+                        tx[i + 2] = 3
+                        n += 1
+                        break
+        return n > 0
+    for run in runs:
+        ctx.validate("Trace_Emit", run, shards=16, corrupt=corrupt)
+    if not ctx.selftest:
+        p = ctx.write_scn(_codec_instances(ctx))
+        run = ctx.drive("codec", scn=p, n=0, flags=["--construct"])
+        ctx.validate("Trace_Codec", run, shards=16)
